@@ -217,12 +217,54 @@ Proof.
     rewrite E; discriminate.
 Qed.
 
+(** *** the re-run marks of a killed build *)
+Lemma premark_dry c w : c_dry c = true -> premark c w = w.
+Proof. intros H. unfold premark. rewrite H, andb_false_r. reflexivity. Qed.
+
+Lemma premark_nocrash c w : c_crashed c = false -> premark c w = w.
+Proof. intros H. unfold premark. rewrite H. reflexivity. Qed.
+
+Lemma premark_fold_inv (P : world -> Prop) rc pm w :
+  P w -> (forall w' l, P w' -> P (set_rec w' l (mark_rec (rec_of w' l)))) ->
+  P (fold_left (fun w l => if mem l rc then w else set_rec w l (mark_rec (rec_of w l))) pm w).
+Proof.
+  intros H0 Hstep. revert w H0. induction pm as [|l pm IH]; intros w H0; simpl; [exact H0|].
+  apply IH. destruct (mem l rc); [exact H0|apply Hstep; exact H0].
+Qed.
+
+Lemma premark_inv (P : world -> Prop) c w :
+  P w -> (forall w' l, P w' -> P (set_rec w' l (mark_rec (rec_of w' l)))) -> P (premark c w).
+Proof.
+  intros H0 Hstep. unfold premark. destruct (c_crashed c && negb (c_dry c)); [|exact H0].
+  apply premark_fold_inv; assumption.
+Qed.
+
+Lemma premark_proj c w : w_proj (premark c w) = w_proj w.
+Proof. apply (premark_inv (fun w' => w_proj w' = w_proj w)); [reflexivity|intros w' l H; exact H]. Qed.
+
+Lemma premark_files c w : w_files (premark c w) = w_files w.
+Proof. apply (premark_inv (fun w' => w_files w' = w_files w)); [reflexivity|intros w' l H; exact H]. Qed.
+
+Lemma build_unfold c w l :
+  link_ok (w_proj w) = true ->
+  build c w l = let o := run_order c (load w) (order_of (w_proj w) l) l in
+                mkOut (premark c (o_w o)) (o_events o) (o_ran o) (o_res o) (o_bad o) (o_vis o).
+Proof. intros H. unfold build. rewrite load_proj, H. reflexivity. Qed.
+
+Lemma build_nocrash c w l :
+  c_crashed c = false -> link_ok (w_proj w) = true ->
+  build c w l = run_order c (load w) (order_of (w_proj w) l) l.
+Proof.
+  intros Hc Hl. rewrite (build_unfold c w l Hl). cbv zeta. rewrite (premark_nocrash _ _ Hc).
+  unfold run_order. reflexivity.
+Qed.
+
 (** C13: a dry build leaves exactly the state a load leaves, and runs no body *)
 Lemma dry_build_no_effects c w l :
   c_dry c = true -> o_w (build c w l) = load w /\ o_ran (build c w l) = [].
 Proof.
   intros Hdry. unfold build. destruct (link_ok (w_proj (load w))).
-  - apply dry_run_no_effects; assumption.
+  - cbn [o_w o_ran]. rewrite (premark_dry _ _ Hdry). apply dry_run_no_effects; assumption.
   - split; reflexivity.
 Qed.
 
@@ -303,7 +345,7 @@ Qed.
 
 Lemma per_label_shape c w l0 l : shape_fwd c l (events_of l (o_events (build c w l0))).
 Proof.
-  unfold build. destruct (link_ok _); [apply per_label_shape_run|constructor].
+  unfold build. destruct (link_ok _); [cbn [o_events]; apply per_label_shape_run|constructor].
 Qed.
 
 (** *** C14: garbage collection *)
